@@ -75,6 +75,64 @@ TAG_UNIVERSE = {
 }
 
 
+GOALS_FILE = os.path.join(vlib.SPEC, "goals_ledger.json")
+
+
+def _goals_fingerprint():
+    import hashlib
+    h = hashlib.sha256()
+    for f in sorted(os.listdir(vlib.SPEC)):
+        if f in ("Ledger.tla", "Num.tla") or (f.startswith("MC_Ledger") and f.endswith(".tla")) or f.startswith("MC_Ledger_goal_"):
+            h.update(f.encode())
+            h.update(open(os.path.join(vlib.SPEC, f), "rb").read())
+    return h.hexdigest()
+
+
+def _stored_goals():
+    try:
+        j = json.load(open(GOALS_FILE))
+    except (OSError, ValueError):
+        return None
+    return j if j.get("fingerprint") == _goals_fingerprint() else None
+
+
+def _goal_search(item, d, workers):
+    module, cfg, hcfgs = item
+    dl = os.path.join(d, "goal-" + cfg)
+    os.makedirs(dl)
+    vlib.stage_specs(dl, with_override=False)
+    t0 = time.time()
+    out, rc = vlib.tlc(dl, module, cfg, workers=workers, timeout=3000)
+    st = vlib.tlc_stats(out)
+    if st is not None:
+        st["wall_s"] = round(time.time() - t0, 1)
+    if st is None or "Error:" in out:
+        raise vlib.Infra(f"goal run {cfg} failed:\n" + out[-3000:])
+    found = {}
+    for line in out.split("\n"):
+        line = line.strip()
+        if line.startswith('"GOAL '):
+            g, beh = json.loads(line)[5:].split(" ", 1)
+            found.setdefault(g, set()).add(beh)
+    return cfg, hcfgs, found, st
+
+
+def regen_goals():
+    """python3 tools/fam_ledger.py --regen-goals : run every goal configuration with ONE TLC worker and store the result"""
+    import concurrent.futures as cf
+    d = vlib.scratch("ledger-goals")
+    try:
+        with cf.ThreadPoolExecutor(max_workers=len(GOALS)) as ex:
+            rs = list(ex.map(lambda g: _goal_search(g, d, 1), GOALS))
+    finally:
+        shutil.rmtree(d, ignore_errors=True)
+    j = {"fingerprint": _goals_fingerprint(), "generated_by": "tlc -workers 1 (breadth-first, invariant EmitGoals) per goal configuration",
+         "runs": {cfg: {"found": {g: sorted(bs) for g, bs in sorted(found.items())}, "stats": {k: v for k, v in st.items() if k != "out"}}
+                  for cfg, _h, found, st in rs}}
+    json.dump(j, open(GOALS_FILE, "w"), indent=0, sort_keys=True)
+    print("stored", GOALS_FILE, {cfg: (len(r["found"]), r["stats"].get("distinct"), r["stats"].get("wall_s")) for cfg, r in j["runs"].items()})
+
+
 def run(tier, seed):
     harness = vlib.build_harness()
     d = vlib.scratch("ledger")
@@ -147,27 +205,18 @@ def _run(tier, seed, harness, d):
             st["wall_s"] = round(time.time() - t0, 1)
         return cfg, hcfg, r, st
 
+    stored = _stored_goals()
+
     def goal(item):
         module, cfg, hcfgs = item
-        dl = os.path.join(d, "goal-" + cfg)
-        os.makedirs(dl)
-        vlib.stage_specs(dl, with_override=False)
-        t0 = time.time()
-        # thorough: one worker = strict breadth-first order, deterministic shortest behaviours; quick: four workers
-        # (the goal search is a generator, not a verdict: a goal it misses is reported under goals_not_covered)
-        out, rc = vlib.tlc(dl, module, cfg, workers=4 if tier == "quick" else 1, timeout=3000)
-        st = vlib.tlc_stats(out)
-        if st is not None:
-            st["wall_s"] = round(time.time() - t0, 1)
-        if st is None or "Error:" in out:
-            raise vlib.Infra(f"goal run {cfg} failed:\n" + out[-3000:])
-        found = {}
-        for line in out.split("\n"):
-            line = line.strip()
-            if line.startswith('"GOAL '):
-                g, beh = json.loads(line)[5:].split(" ", 1)
-                found.setdefault(g, set()).add(beh)
-        return cfg, hcfgs, found, st
+        if stored is not None and cfg in stored["runs"] and not os.environ.get("VERIF_FRESH_GOALS"):
+            # the goal search depends on the specification only (not on the code under test): its output was
+            # generated by TLC with ONE worker (strict breadth-first order, deterministic) when the specification
+            # last changed and is stored next to it; a run re-generates it only when the fingerprint differs
+            r = stored["runs"][cfg]
+            return cfg, hcfgs, {g: set(bs) for g, bs in r["found"].items()}, dict(r["stats"], stored=True)
+        return _goal_search(item, d, 4 if tier == "quick" else 1)
+
 
     worlds = dict(WORLDS)
     with cf.ThreadPoolExecutor(max_workers=par) as ex:
@@ -190,7 +239,8 @@ def _run(tier, seed, harness, d):
             # starts from empty pools): replay every goal behaviour also with o1 and o2 exchanged, so that the
             # goal's pool states are reached on the operator that starts empty
             behs = sorted(set(behs) | {b.replace('"o1"', '"o#"').replace('"o2"', '"o1"').replace('"o#"', '"o2"') for b in behs})
-            res["goal_runs"].append({"cfg": cfg, "goals_reached": sorted(found), "behaviours": len(behs), "states": st["distinct"], "wall_s": st.get("wall_s"), "worlds": len(hcfgs)})
+            res["goal_runs"].append({"cfg": cfg, "goals_reached": sorted(found), "behaviours": len(behs), "states": st["distinct"], "wall_s": st.get("wall_s"), "worlds": len(hcfgs),
+                                     "source": "stored with the specification (TLC, one worker)" if st.get("stored") else "generated in this run"})
             # every goal behaviour is replayed at EVERY amount scale of its world (not at one picked at random):
             # unit amounts, amounts whose products need rounding, and amounts around 10^30 where a
             # divide-before-multiply or a mis-sized overflow guard loses whole units
@@ -332,3 +382,9 @@ def replay(path):
         return {"family": "ledger", "mc": [], "tags": tags, "behaviours": 1, "events": 0, "samples": [j["behaviour"]], "tag_universe": TAG_UNIVERSE}
     finally:
         shutil.rmtree(d, ignore_errors=True)
+
+
+if __name__ == "__main__":
+    import sys
+    if "--regen-goals" in sys.argv:
+        regen_goals()
